@@ -98,11 +98,24 @@ func c08Executor() *kmipserver.BatchExecutor {
 func c08Request(seq int, outcomes []string) []byte {
 	var pls []kmip.OperationPayload
 	for i, o := range outcomes {
+		if o == "unrouted" {
+			pls = append(pls, &payloads.DestroyRequestPayload{UniqueIdentifier: fmt.Sprintf("%d.%d|%s", seq, i, o)})
+			continue
+		}
 		pls = append(pls, &payloads.ActivateRequestPayload{UniqueIdentifier: fmt.Sprintf("%d.%d|%s", seq, i, o)})
 	}
 	m := kmip.NewRequestMessage(kmip.V1_4, pls...)
 	ts := time.Unix(1700000000, 0)
 	m.Header.TimeStamp = &ts
+	for i, o := range outcomes {
+		// dispatch paths that never reach a handler: message extensions (critical ones must be refused)
+		switch o {
+		case "critical-extension":
+			m.BatchItem[i].MessageExtension = &kmip.MessageExtension{VendorIdentification: "verif", CriticalityIndicator: true, VendorExtension: ttlv.Struct{{Tag: 0x540001, Value: int32(1)}}}
+		case "ok-extension":
+			m.BatchItem[i].MessageExtension = &kmip.MessageExtension{VendorIdentification: "verif", CriticalityIndicator: false}
+		}
+	}
 	return ttlv.MarshalTTLV(&m)
 }
 
@@ -270,7 +283,7 @@ func checkResponse(resp *ttlvref.Node, e expectation) error {
 	}
 	for i, o := range e.outcomes {
 		st := node(items[i], 0x42007F)
-		wantOK := o == "ok" || strings.HasPrefix(o, "slow:")
+		wantOK := o == "ok" || o == "ok-extension" || strings.HasPrefix(o, "slow:")
 		if st == nil || (st.I == 0) != wantOK {
 			// a slow handler that honours a cancelled context may fail; only on dead connections, which do not get here
 			return fmt.Errorf("request %d item %d (%s) has status %v", e.seq, i, o, st)
@@ -524,11 +537,15 @@ func c08Bubble(c c08Case) (res c08Result) {
 				continue
 			}
 			p.stalled.Store(true)
+			p.c.SetPeerWindow(16) // the server's writes block once 16 unread bytes are pending
+			p.c.PauseReads()
 		case "unstall":
 			if p == nil {
 				continue
 			}
 			p.stalled.Store(false)
+			p.c.SetPeerWindow(0)
+			p.c.ResumeReads()
 			select {
 			case p.gate <- struct{}{}:
 			default:
@@ -572,6 +589,7 @@ func c08Bubble(c c08Case) (res c08Result) {
 		p.closed = true
 		p.mu.Unlock()
 		p.stalled.Store(false)
+		p.c.ResumeReads()
 		p.c.Close()
 	}
 	synctest.Wait()
@@ -639,6 +657,8 @@ func drawOutcomes(rt *rapid.T) []string {
 			out = append(out, "panic:"+rapid.SampledFrom([]string{"string", "error", "int", "stringer", "nil"}).Draw(rt, "panicval"))
 		case 3:
 			out = append(out, fmt.Sprintf("slow:%d:%t", rapid.SampledFrom([]int{1, 50, 1000}).Draw(rt, "ms"), rapid.Bool().Draw(rt, "honour")))
+		case 4:
+			out = append(out, rapid.SampledFrom([]string{"critical-extension", "ok-extension", "unrouted"}).Draw(rt, "dispatch"))
 		default:
 			out = append(out, "ok")
 		}
